@@ -22,7 +22,10 @@ Record wprobe := mkwprobe { w_have : list N; w_time : N; w_out : N }.
 
 (* c_requested: in API mode, the key sets asked for through NewIdentityFull / Mutate, one per call that changed
    something; what git holds (c_versions, read back from the blobs) must be exactly that *)
-Record case := mkcase { c_versions : list (version N); c_requested : option (list (list N)); c_probes : list probe; c_writes : list wprobe }.
+(* c_early: bugs the author wrote through the API (every private key at hand) right after each version but the
+   last was committed: (edit time of the commit, verdict of reading it once the whole history exists) *)
+Record case := mkcase { c_versions : list (version N); c_requested : option (list (list N)); c_probes : list probe; c_writes : list wprobe;
+                        c_early : list (N * N) }.
 
 Definition memN (x : N) (l : list N) : bool := existsb (N.eqb x) l.
 
@@ -87,7 +90,8 @@ Definition requested_ok (c : case) : bool :=
   match c_requested c with None => true | Some r => nll_eqb r (map snd (c_versions c)) end.
 
 Definition C08_ok (c : case) : bool :=
-  forallb (probe_ok (c_versions c)) (c_probes c) && forallb write_ok (c_writes c) && requested_ok c.
+  forallb (probe_ok (c_versions c)) (c_probes c) && forallb write_ok (c_writes c) && requested_ok c &&
+  forallb (fun e => N.eqb (snd e) 0) (c_early c).
 Definition failing (cs : list case) : list nat := index_filter C08_ok 0 cs.
 
 (* sanity: on the model's own verdicts the property checker is satisfied for a chronological history *)
@@ -95,5 +99,5 @@ Example K_C08_self :
   let vs := ex_history in
   let mk t s a := let p := mkprobe t s a false 0 0 in mkprobe t s a false (model_probe vs p) (model_probe vs p) in
   let ps := flat_map (fun t => flat_map (fun s => [mk t s false; mk t s true]) [None; Some 1; Some 2; Some 3]) [1; 2; 3; 4; 5; 6; 7; 8] in
-  C08_ok (mkcase vs None ps [mkwprobe [] 0 (model_write vs [] (after_all vs))]) = true.
+  C08_ok (mkcase vs None ps [mkwprobe [] 0 (model_write vs [] (after_all vs))] []) = true.
 Proof. vm_compute. reflexivity. Qed.
